@@ -57,6 +57,7 @@ type Frame struct {
 	callerFrame *Frame
 	panicPaths []string
 	prefixOverride string
+	suppress bool // safety obligations of this (inlined) frame are proved in the callee's own verification
 }
 
 type retPoint struct {
@@ -172,6 +173,10 @@ func (f *Frame) loopPos(h *ssa.BasicBlock) token.Pos {
 	li := f.loops[h]
 	for b := range li.body {
 		for _, in := range b.Instrs {
+			switch in.(type) {
+			case *ssa.Phi, *ssa.DebugRef:
+				continue // carry the position of the variable's declaration, which may be outside the loop
+			}
 			if p := in.Pos(); p.IsValid() && (best == 0 || p < best) {
 				best = p
 			}
@@ -224,6 +229,14 @@ func (f *Frame) loopMods(li *loopInfo) (map[string]bool, bool, map[string][]ssa.
 			return
 		}
 		if in, ok := r.(ssa.Instruction); ok && in.Block() != nil && li.body[in.Block()] {
+			if al, isAlloc := r.(*ssa.Alloc); isAlloc && !escapes(al) {
+				// a temporary allocated inside the body that never escapes: fresh in every iteration and dead at the
+				// next loop head, so writes to it do not change any object that exists at the head
+				if _, has := roots[k]; !has {
+					roots[k] = []ssa.Value{}
+				}
+				return
+			}
 			unknown[k] = true
 			return
 		}
@@ -504,6 +517,7 @@ func (f *Frame) enterBlock(b *ssa.BasicBlock, entryState *State, entryReach stri
 			if bits, _, ok := intInfo(phi.Type()); ok && bits == 64 {
 				dir := 0
 				okAll := true
+				var step int64 = -1
 				for i, p := range b.Preds {
 					if !(li.body[p] && b.Dominates(p)) {
 						continue
@@ -537,6 +551,17 @@ func (f *Frame) enterBlock(b *ssa.BasicBlock, entryState *State, entryReach stri
 						break
 					}
 					dir = d
+					if step == -1 {
+						step = kv
+					} else if step != kv {
+						step = 0
+					}
+				}
+				if okAll && dir != 0 && step > 1 {
+					if ev := entryPhis[phi]; ev.S != "" {
+						// every iteration moves the counter by exactly `step`: it stays congruent to its entry value
+						tinv = append(tinv, fmt.Sprintf("(= (mod (- %s %s) %d) 0)", v.S, ev.S, step))
+					}
 				}
 				if okAll && dir != 0 {
 					ev := entryPhis[phi]
@@ -673,6 +698,9 @@ func (c *FuncCtx) typeInvD(v Val, depth int) string {
 		}
 		sn := c.so.structSort(v.T, u)
 		var ts []string
+		if ui := c.userTypeInv(v); ui != "" && !c.noUserInv {
+			ts = append(ts, ui)
+		}
 		for i := 0; i < u.NumFields(); i++ {
 			ft := u.Field(i).Type()
 			switch ft.Underlying().(type) {
@@ -768,6 +796,13 @@ func (f *Frame) srcText(pos token.Pos) string {
 func (f *Frame) safety(class string, cur *blockCur, goal string, in ssa.Instruction, detail string) {
 	if goal == "true" {
 		return
+	}
+	for x := f; x != nil; x = x.callerFrame {
+		if x.suppress {
+			// the callee is verified on its own against its own safety claim
+			cur.assume(goal)
+			return
+		}
 	}
 	pos := in.Pos()
 	if !pos.IsValid() {
